@@ -179,12 +179,69 @@ def no_capture(ctx, rule="C20.no-capture"):
     ctx.floor(rule, 10)
 
 
+def threshold_polarity(ctx, rule="C20.passive"):
+    from ..cfg import cfg_of
+    from .common_guard import path_facts
+    ctx.explain(f"{rule}: (threshold selects the click statistics) in the trainable-GBS modules the `threshold` flag chooses between sibling "
+                "routines: click / Torontonian ones (mean_clicks_by_mode, prob_click, rescale_tor, torontonian_sample_state) when it holds, "
+                "photon-number / Hafnian ones (mean_photons_by_mode, prob_photon_sample, rescale, hafnian_sample_state) when it does not - at "
+                "every one of the sites (statement branches, early returns and conditional expressions), so that cost, gradient, "
+                "normalisation and samples of one model refer to the same detector.")
+
+    def kind(name):
+        n_ = name.lower()
+        if "click" in n_ or "torontonian" in n_ or n_.endswith("_tor") or "_tor_" in n_:
+            return "click"
+        if "photon" in n_ or "hafnian" in n_ or n_ == "rescale":
+            return "photon"
+        return None
+    n = 0
+    for rel_ in ("apps/train/param.py", "apps/train/cost.py"):
+        if rel_ not in ctx.tree.modules:
+            continue
+        for f in ctx.tree.module(rel_).functions.values():
+            cfg = None
+            k = 0
+            for c in walk_no_nested(f.node):
+                if not isinstance(c, ast.Call):
+                    continue
+                kd = kind((dotted(c.func) or "").split(".")[-1])
+                if kd is None:
+                    continue
+                pol = None
+                # conditional expressions
+                ch, par = c, getattr(c, "parent", None)
+                while par is not None and not isinstance(par, ast.stmt):
+                    if isinstance(par, ast.IfExp) and "threshold" in ast.unparse(par.test) and ch is not par.test:
+                        t, neg = par.test, False
+                        while isinstance(t, ast.UnaryOp) and isinstance(t.op, ast.Not):
+                            t, neg = t.operand, not neg
+                        pol = (ch is par.body) != neg
+                    ch, par = par, getattr(par, "parent", None)
+                if pol is None:
+                    cfg = cfg or cfg_of(f.node)
+                    ids = cfg.node_of_expr(c)
+                    for a, v in (path_facts(cfg, ids[0]) if ids else []):
+                        if "threshold" in ast.unparse(a) and isinstance(a, (ast.Attribute, ast.Name)):
+                            pol = bool(v)
+                if pol is None:
+                    continue
+                n += 1
+                k += 1
+                ok = pol == (kd == "click")
+                ctx.ob(rule, f.site, ok, "" if ok else f"`{ast.unparse(c)[:50]}` ({'click' if kd == 'click' else 'photon-number'} statistics) is used when "
+                       f"`threshold` is {'true' if pol else 'false'}: the sibling sites use the other routine there", role=f"threshold:{kd}:{k}", line=c.lineno)
+    ctx.require(n >= 6, f"only {n} threshold-selected click / photon routines found in apps/train")
+    ctx.floor(rule, 6)
+
+
 def rules(ctx):
     no_capture(ctx)
     hbar(ctx)
     passive(ctx)
     doktorov(ctx)
     fixed_samples(ctx)
+    threshold_polarity(ctx)
     from . import c19 as _c19
     _c19.padding_guard(ctx, "C20.fit-guard")
     ctx.floor("C20.fit-guard", 1)
